@@ -36,11 +36,11 @@ func (list *List) LPop(count int) ([]string, bool) {
 	if count < 1 {
 		return nil, false
 	}
+	if len(list.elements) < count {
+		count = len(list.elements)
+	}
 	elems := []string{}
 	for n := 0; n < count; n++ {
-		if len(list.elements) < 1 {
-			continue
-		}
 		elems = append(elems, list.elements[0])
 		list.elements = list.elements[1:]
 	}
@@ -58,11 +58,11 @@ func (list *List) RPop(count int) ([]string, bool) {
 	if count < 1 {
 		return nil, false
 	}
+	if len(list.elements) < count {
+		count = len(list.elements)
+	}
 	elems := []string{}
 	for n := 0; n < count; n++ {
-		if len(list.elements) < 1 {
-			continue
-		}
 		elems = append(elems, list.elements[len(list.elements)-1])
 		list.elements = list.elements[:len(list.elements)-1]
 	}
@@ -81,11 +81,14 @@ func (list *List) Range(start int, stop int) []string {
 	if stop < 0 {
 		stop = len(list.elements) + stop
 	}
+	if start < 0 {
+		start = 0
+	}
+	if (len(list.elements) - 1) < stop {
+		stop = len(list.elements) - 1
+	}
 	elems := []string{}
 	for n := start; n <= stop; n++ {
-		if (n < 0) || ((len(list.elements) - 1) < n) {
-			continue
-		}
 		elems = append(elems, list.elements[n])
 	}
 	return elems
